@@ -139,7 +139,7 @@ Record cheque_facts := mkCF {
   cf_store_ok : bool;      (* chequeStore.ReceiveCheque accepts it *)
   cf_sig_nil : bool;       (* Signature == nil *)
   cf_rec_is_peer : bool;   (* Recipient == the chain address registered for the peer *)
-  cf_verified : bool;      (* VerifyCheque returns no error *)
+  cf_sig_recovers : bool;  (* signature recovery over the EIP-712 hash succeeds, GIVEN the cheque could be encoded *)
   cf_issuer_self : bool;   (* ... and the issuer is the node itself *)
   cf_payout_nil : bool     (* CumulativePayout == nil *)
 }.
@@ -148,6 +148,12 @@ Record cheque_facts := mkCF {
 Inductive json_cheque := JBad | JOk (is_null : bool) (f : cheque_facts).
 
 Definition E_ERR : N := 1.
+
+(** [chequeStore.VerifyCheque] = [RecoverCheque]: [eip712DataForCheque] renders the payout with
+    [String()] of a [*big.Int], which for a nil pointer is the text "<nil>" (no dereference); the typed-data
+    encoder ([apitypes.parseInteger] -> [math.ParseBig256]) rejects that text for the [uint256] field, so the
+    hash is never computed and verification fails before any signature work *)
+Definition cf_verified (f : cheque_facts) : bool := negb (cf_payout_nil f) && cf_sig_recovers f.
 
 (** [traffic.Service.ReceiveCheque(ctx, peer, cheque *SignedCheque)] *)
 Definition receive_cheque (known : bool) (c : option cheque_facts) : res unit :=
@@ -316,7 +322,7 @@ Definition hive_peers (maxpo : N) (base : list N) (ping_ok : bool) (m : option (
 
 (** [hex.EncodeToString] (lower case), as ASCII codes: [boson.Address.String()] *)
 Definition hex_digit (n : N) : N := if n <? 10 then 48 + n else 87 + n.
-Definition hex_of (l : list N) : list N := flat_map (fun b => [hex_digit (b / 16); hex_digit (b mod 16)]) l.
+Definition hex_of (l : list N) : list N := flat_map (fun b => [hex_digit ((b / 16) mod 16); hex_digit (b mod 16)]) l.
 (** [hex.DecodeString] succeeds: even length, every character a hex digit of either case *)
 Definition is_hex_char (c : N) : bool :=
   ((48 <=? c) && (c <=? 57)) || ((97 <=? c) && (c <=? 102)) || ((65 <=? c) && (c <=? 70)).
@@ -565,3 +571,120 @@ Definition retrieval_handler (self : list N) (has_chunk full root_known : bool) 
           guard root_known E_ERR) ;;;                 (* chunkinfo.OnChunkRetrieved; then storer.Put, exists[0] *)
        (* write Delivery, accounting.Debit *)
        if full then guard root_known E_ERR else Val tt).   (* chunkinfo.OnChunkTransferred *)
+
+(** ===================================================================== *)
+(** * chunkinfo pyramid exchange  (pkg/chunkinfo/message.go handlerPyramid / sendPyramid /
+      onChunkPyramidHashReq / onChunkPyramidResp, chunkpyramid.go updateChunkPyramid,
+      chunkinfotabneighbor.go initNeighborChunkInfo) *)
+
+Record pyr_req := mkPyrReq { pq_root : list N; pq_target : list N }.
+Record pyr_resp := mkPyrResp { pr_chunk : list N; pr_hash : list N; pr_ok : bool }.
+
+(** node state read by the front: own address; the pyramid of the requested root is in the table
+    ([isExists]); what the LOCAL traversal [GetPyramid(root)] returns: the addresses of its entries
+    (map keys are [Address.String()] of them), [None] = error *)
+Record pyr_state := mkPyrState { ps_self : list N; ps_root_known : bool; ps_local : option (list (list N)) }.
+
+(** library answer on a pyramid received from a peer: [traversal.GetChunkHashes(root, pyramid)]
+    (BMT check of every entry, size bound, manifest / joiner walk): ok?, the data-chunk addresses
+    it lists (with repetitions), the single-chunk file references ("pieces") *)
+Record trav_ans := mkTrav { tv_ok : bool; tv_hashes : list (list N); tv_cids : list (list N) }.
+
+(** [boson.MustParseHexAddress(k)] *)
+Definition must_hex (k : list N) : res unit := if is_hex k then Val tt else Pan.
+
+(** data chunks in order of first occurrence: [getPyramid] numbers them ([sort]) *)
+Fixpoint dedup_into (seen : list (list N)) (l : list (list N)) : list (list N) :=
+  match l with
+  | [] => seen
+  | x :: r => if member x seen then dedup_into seen r else dedup_into (seen ++ [x]) r
+  end.
+Fixpoint find_idx (c : list N) (l : list (list N)) (i : nat) : option nat :=
+  match l with
+  | [] => None
+  | x :: r => if bytes_eqb c x then Some i else find_idx c r (S i)
+  end.
+(** [bitvector.New(l)]: number of backing bytes *)
+Definition bv_bytes (l : nat) : nat := if (Nat.eqb (l mod 8) 0 && negb (Nat.eqb l 0))%bool then l / 8 else l / 8 + 1.
+(** [bv.Set(i)] / [bv.Get(i)]: [bv.b[i/8]] *)
+Definition bv_touch (nbytes i : nat) : res unit := if (i / 8 <? nbytes)%nat then Val tt else Pan.
+
+(** [initNeighborChunkInfo(root, peer, cids)] after [updateChunkPyramid]: own availability vector and
+    the source vector of the peer get the bit of every piece that is a data chunk of the file *)
+Definition pyr_book (hashes cids : list (list N)) : res unit :=
+  let u := dedup_into [] hashes in
+  let n := length u in
+  if Nat.eqb n 0 then Val tt                               (* "pyramid is not exists": logged, return *)
+  else for_each (fun c => match find_idx c u 0 with
+                          | None => Val tt                  (* not a data chunk: ignored (HEAD) *)
+                          | Some i => bv_touch (bv_bytes n) i ;;; bv_touch (bv_bytes n) i
+                          end) cids.
+
+(** [onChunkPyramidResp(root, peer, resps)] *)
+Definition on_pyramid_resp (root_known : bool) (collected : list pyr_resp) (t : trav_ans) : res unit :=
+  if root_known then Val tt else
+  guard (tv_ok t) E_ERR ;;;
+  (* UpdatePyramidSource; updateChunkPyramid: keys of the map are [NewAddress(resp.Hash).String()] *)
+  for_each (fun r => must_hex (hex_of (pr_hash r))) collected ;;;
+  pyr_book (tv_hashes t) (tv_cids t).
+
+(** the read loop of [sendPyramid]: entries up to the first [Ok]; the stream ending first is a read error *)
+Fixpoint pyr_collect (rs : list pyr_resp) : option (list pyr_resp) :=
+  match rs with
+  | [] => None
+  | r :: rest => if pr_ok r then Some [] else option_map (cons r) (pyr_collect rest)
+  end.
+
+Definition send_pyramid (root_known fwd_ok : bool) (reply : list pyr_resp) (t : trav_ans) : res (list pyr_resp) :=
+  guard fwd_ok E_ERR ;;;
+  c <- from_read (pyr_collect reply) E_ERR ;;
+  on_pyramid_resp root_known c t ;;;
+  Val c.
+
+(** [handlerPyramid]: returns the number of messages written back *)
+Definition pyramid_handler (st : pyr_state) (fwd_ok : bool) (m : option pyr_req) (reply : list pyr_resp) (t : trav_ans) : res nat :=
+  req <- from_read m E_ERR ;;
+  if bytes_eqb (pq_target req) (ps_self st) || ps_root_known st then
+    v <- from_read (ps_local st) E_ERR ;;                   (* onChunkPyramidHashReq *)
+    for_each (fun a => must_hex (hex_of a)) v ;;;           (* MustParseHexAddress(hash) on the local map's keys *)
+    Val (length v + 1)%nat
+  else
+    c <- send_pyramid (ps_root_known st) fwd_ok reply t ;;
+    Val (length c + 1)%nat.
+
+(** ===================================================================== *)
+(** * multicast, initiating direction: replies read by the node *)
+
+(** [Handshake(addr)]: reads the peer's GIDs, [updatePeerGroupsJoin(addr, gids)] *)
+Definition mc_hs_out (maxpo : N) (self peer : list N) (m : option (list (list N))) : outcome :=
+  run (gids <- from_read m E_ERR ;; for_each (fun _gid => group_touch maxpo self peer) gids).
+
+(** [getGroupNode] + its caller [doFindGroup]: every address of the FindGroupResp (ANY length) is
+    filed with [g.add(addr, false)] *)
+Definition mc_group_node (maxpo : N) (self : list N) (m : option (list (list N))) : outcome :=
+  run (addrs <- from_read m E_ERR ;; for_each (fun a => group_touch maxpo self a) addrs).
+
+(** [Send] / [SendReceive]: reads one GroupMsg; a non-empty [Err] becomes the error *)
+Definition mc_send (m : option group_msg) : outcome :=
+  run (g <- from_read m E_ERR ;; guard (Nat.eqb (length (gm_err g)) 0) E_ERR).
+
+(** ===================================================================== *)
+(** * routetab relay  (route.go PackRelayResp + the forward branch of onRelay).
+      [libp2p.CallHandler] sits between them: it starts [PackRelayResp], takes the first request
+      and decides [forward := !MidCall && Dest != self]; a request for this node is dispatched to
+      the named protocol handler (outside routetab, outside this model: outcome of that handler) *)
+Record relay_req := mkRelayReq { rr_dest : list N; rr_src : list N; rr_srcmode : list N; rr_midcall : bool;
+                                 rr_paths : list (list N) }.
+
+(** [is_conn]: the target is a connected peer ([IsNeighbor]); no stored route otherwise *)
+Definition rt_relay (maxpo : N) (self : list N) (is_conn fwd_ok : bool) (m : option relay_req) : outcome :=
+  run (match m with
+       | None => Val tt                                       (* first read failed: reqCh <- nil, onRelay returns *)
+       | Some req =>
+           if negb (rr_midcall req) && negb (bytes_eqb (rr_dest req) self) then
+             (* req.Paths = append(req.Paths, self); IsNeighbor(target) = pslice.Exists *)
+             _b <- pslice_bin maxpo (maxpo + 1) self (rr_dest req) ;;
+             if is_conn then guard fwd_ok E_ERR               (* NewStream(next), WriteMsg; peer closes: EOF -> nil *)
+             else Ret E_ERR                                   (* generatePathItems; GetNextHopRandomOrFind fails *)
+           else Val tt
+       end).
